@@ -32,6 +32,10 @@ pub trait Kind<'a>: ValueInput<'a, Token: Tok, Span: SpanObs> + Sized + 'a {
     fn toslice<E: ErrTy<'a, Self>>(_p: P<'a, Self, E>) -> Result<P<'a, Self, E>, String> {
         Err(format!("to_slice unsupported on input kind {}", Self::NAME))
     }
+    /// select_ref! { Group(xs) => inner input } where the input is a token tree (C16)
+    fn tree_leaf<E: ErrTy<'a, Self>>() -> Result<Boxed<'a, 'a, Self, Self, X<E>>, String> {
+        Err(format!("input kind {} has no group tokens", Self::NAME))
+    }
 }
 
 fn slice_val(ptr: usize, len: usize) -> Val {
@@ -613,7 +617,8 @@ where
             chumsky::primitive::map_ctx::<_, _, I, X<E>, X<E>, _>(move |c: &Val| map_fn(&f, c.clone()), build(a, env)?).boxed()
         }
         G::WithState(a) => build(a, env)?.with_state(St::default()).boxed(),
-        G::Nested(..) | G::Tree => return Err("nested inputs are built by the token-tree runner".into()),
+        G::Nested(a, b) => crate::tree::nested(build(a, env)?, crate::tree::build_b(b, env)?),
+        G::Tree => return Err("a group selector yields an input, not a value: only as the `b` of nested".into()),
         G::Pratt(atom, ops, table) => {
             use chumsky::pratt::{infix, left, postfix, prefix, right, Operator};
             let atom = build(atom, env)?;
